@@ -381,6 +381,7 @@ func visitInstr(fr *frame, instr ssa.Instruction) continuation {
 		if m == nil {
 			panic(targetPanic{iface{tRuntimeError, "assignment to entry in nil map"}})
 		}
+		checkHashable(fr.get(instr.Key))
 		m.insert(fr.get(instr.Key), copyVal(fr.get(instr.Value)))
 		if preemptMem {
 			maybePreempt(fr, "mapupdate")
@@ -408,7 +409,18 @@ func visitInstr(fr *frame, instr ssa.Instruction) continuation {
 	return kNext
 }
 
+// checkHashable: a map key of interface type whose dynamic type is not comparable (slice, map,
+// func, or a struct/array containing one) panics in Go ("hash of unhashable type").
+func checkHashable(k value) {
+	if ifc, ok := k.(iface); ok && ifc.t != nil && ifc.t != tRuntimeError && !types.Comparable(ifc.t) {
+		panic(targetPanic{iface{tRuntimeError, "runtime error: hash of unhashable type " + ifc.t.String()}})
+	}
+}
+
 func lookup(instr *ssa.Lookup, x, idx value) value {
+	if _, isMap := instr.X.Type().Underlying().(*types.Map); isMap {
+		checkHashable(idx)
+	}
 	switch x := x.(type) {
 	case *hmap:
 		if x != nil && x.n > 64 && !x.hasSymKeys() {
